@@ -781,10 +781,18 @@ def gen_C10(o, rng, tier):
         u = list(range(nn + 1))
         for lay in layouts(nn, u):
             for variant in ([False, True] if lay else [False]):
-                for take in range(0, len(lay) + 3):
-                    for e in ("drop", "forget"):
-                        ops = [f"m0 drain {take} {e}"] + [f"m0 into_iter {k} {take} {e}" for k in
-                                                         ("pairs", "keys", "values")]
+                # `take`: k calls of next, `tK` = nth(K), `z` = last(); end: drop / forget / count()
+                takes = [str(t) for t in range(0, len(lay) + 3)] + [f"t{k}" for k in range(0, len(lay) + 2)] + ["z"]
+                for take in takes:
+                    plain = take.isdigit()
+                    for e in ("drop", "forget", "count"):
+                        if take == "z" and e != "drop":
+                            continue
+                        ops = [f"m0 drain {take} {e}", f"m0 into_iter pairs {take} {e}"]
+                        if plain and e != "count":
+                            # IntoKeys / IntoValues: `next` drops the other half (an effect), so the
+                            # provided methods are exercised on the pair iterator only
+                            ops += [f"m0 into_iter {k} {take} {e}" for k in ("keys", "values")]
                         for op in ops:
                             o.case(m0=nn, m1=nn)
                             build_map(o, "m0", lay, via_removal=variant)
@@ -794,6 +802,8 @@ def gen_C10(o, rng, tier):
                             for c in u:          # fully reusable: refill to capacity
                                 o.op(f"m0 insert {o.k(c)} {o.v()}")
                             o.end()
+                        if variant:
+                            continue
                         for kind in ("drain", "into_iter"):
                             o.case(s0=nn, s1=nn)
                             build_set(o, "s0", lay)
